@@ -822,8 +822,16 @@ package gts
 //@   ensures !isnil(out) && len(bytesOf(out)) == len(bytesOf(seq)) && fresh(bytesOf(out))
 //@   ensures mirrored: forall k in 0..len(bytesOf(out)): bytesOf(out)[k] == old(bytesOf(seq)[len(bytesOf(seq))-1-k])
 //@   ensures count: len(featsOf(out)) == len(featsOf(seq)) && fresh(featsOf(out))
+//@   ghost Q(k int) int
+//@   ensures wiring: forall k in 0..len(featsOf(seq)): 0 <= Q(k) && Q(k) < len(featsOf(out)) && featsOf(out)[Q(k)].Key == old(featsOf(seq)[k].Key) &&
+//@      valOf(featsOf(out)[Q(k)].Loc) == revId(valOf(old(featsOf(seq)[k].Loc)), len(bytesOf(seq)))
+//@   ensures wiring_injective: forall a in 0..len(featsOf(seq)): forall b in a+1..len(featsOf(seq)): Q(a) != Q(b)
 //@   assigns nothing
+//@   loop 1: ghost_update Q(k) := ite(k == idx1 - 1, Insert_P(0), ite(Q(k) >= Insert_P(0), Q(k) + 1, Q(k)))
 //@   loop 1: invariant len(ff) == idx1 && fresh(ff)
+//@   loop 1: invariant forall k in 0..idx1: 0 <= Q(k) && Q(k) < len(ff) && ff[Q(k)].Key == old(featsOf(seq)[k].Key) &&
+//@      valOf(ff[Q(k)].Loc) == revId(valOf(old(featsOf(seq)[k].Loc)), len(bytesOf(seq)))
+//@   loop 1: invariant forall a in 0..idx1: forall b in a+1..idx1: Q(a) != Q(b)
 //@   loop 1: decreases len(featsOf(seq)) - idx1
 
 //@ lemma emodShift(a, m int)
@@ -920,8 +928,15 @@ package gts
 //@   ensures !isnil(out) && len(bytesOf(out)) == end - start && fresh(bytesOf(out))
 //@   ensures window: forall k in 0..end-start: bytesOf(out)[k] == old(bytesOf(seq)[start+k])
 //@   ensures count: len(featsOf(out)) <= len(featsOf(seq)) && fresh(featsOf(out))
+//@   ghost JJ(k int) int
+//@   ghost_final JJ(k) := Filter_J(k)
+//@   ensures wiring: forall k in 0..len(featsOf(out)): 0 <= JJ(k) && JJ(k) < len(featsOf(seq)) && featsOf(out)[k].Key == old(featsOf(seq)[JJ(k)].Key) &&
+//@      (featsOf(out)[k].Key != "source" ==> valOf(featsOf(out)[k].Loc) == expId(expId(valOf(old(featsOf(seq)[JJ(k)].Loc)), end, end - len(bytesOf(seq))), 0, 0 - start))
 //@   assigns nothing
 //@   loop 1: invariant fresh(ff) && len(ff) <= len(featsOf(seq))
+//@   loop 1: invariant forall k in 0..len(ff): 0 <= Filter_J(k) && Filter_J(k) < len(featsOf(seq)) && ff[k].Key == old(featsOf(seq)[Filter_J(k)].Key)
+//@   loop 1: invariant forall k in i..len(ff): ff[k].Loc == old(featsOf(seq)[Filter_J(k)].Loc)
+//@   loop 1: invariant forall k in 0..i: ff[k].Key != "source" ==> valOf(ff[k].Loc) == expId(expId(valOf(old(featsOf(seq)[Filter_J(k)].Loc)), end, end - len(bytesOf(seq))), 0, 0 - start)
 //@   loop 1: decreases len(ff) - i
 
 // Negative indices count from the end; a window with end < start wraps past the end.
